@@ -111,6 +111,17 @@ def _obs(label, grammar, name, fields_enc, envelope, lean_req, exc=None):
     return o
 
 
+def _tool_exc(r):
+    """an explicit 'the compiler raised' marker in a tool response, if any"""
+    for e in (r.get("errors") or []):
+        if isinstance(e, dict) and e.get("code") == "E_COMPILE":
+            return "E_COMPILE: " + str(e.get("message"))[:120]
+    gh = r.get("grammar_hint") or {}
+    if isinstance(gh, dict) and gh.get("error"):
+        return str(gh.get("error"))
+    return None
+
+
 def _schema_obs(prefix, schema, envelopes=(False, True)):
     from octave_mcp.core.gbnf_compiler import GBNFCompiler
     out = []
@@ -183,16 +194,16 @@ def eval_case(case):
             obs, fields_enc = _schema_obs("doc", schema)
             req = G.enc_schema(schema, True)
             g, _r = G.route_compile_tool(content=text)
-            obs.append(_obs("doc:compile_tool", g, schema.name, fields_enc, True, req))
+            obs.append(_obs("doc:compile_tool", g, schema.name, fields_enc, True, req, _tool_exc(_r)))
             g, _r = G.route_eject(text)
             obs.append(_obs("doc:eject", g, schema.name, fields_enc, True, req))
             if case.get("hint"):
                 with G.Sandbox() as sb:
                     sb.put_schema(case["name"], text)
                     g, _r = G.route_validate_hint(case["name"])
-                    obs.append(_obs("doc:validate_hint", g, schema.name, fields_enc, True, req))
+                    obs.append(_obs("doc:validate_hint", g, schema.name, fields_enc, True, req, _tool_exc(_r)))
                     g, _r = G.route_write_hint(case["name"], sb.fresh_target())
-                    obs.append(_obs("doc:write_hint", g, schema.name, fields_enc, True, req))
+                    obs.append(_obs("doc:write_hint", g, schema.name, fields_enc, True, req, _tool_exc(_r)))
             res["obs"] = obs
         elif kind == "contract":
             from octave_mcp.core.gbnf_compiler import compile_gbnf_from_meta
@@ -230,7 +241,7 @@ def eval_case(case):
                 g, exc = None, f"{type(e).__name__}: {e}"
             obs = [_obs("contract:api", g, t, fields_enc, True, req, exc)]
             g, _r = G.route_compile_tool(content=text)
-            obs.append(_obs("contract:compile_tool", g, t, fields_enc, True, req))
+            obs.append(_obs("contract:compile_tool", g, t, fields_enc, True, req, _tool_exc(_r)))
             g, _r = G.route_eject(text)
             obs.append(_obs("contract:eject", g, t, fields_enc, True, req))
             res["obs"] = obs
@@ -535,7 +546,10 @@ def run(ctx: vlib.Ctx):
             route = o["label"]
             g = o["grammar"]
             # correspondence (view: the grammar text, or "raises")
-            if o["lean_i"] is not None:
+            tool_silent = (not isinstance(g, str)) and not o["exc"] and ":api" not in route
+            if tool_silent:
+                ctx.count("tool-returned-no-grammar:" + route)       # e.g. no INVALID verdict -> no grammar_hint: nothing to compare
+            elif o["lean_i"] is not None:
                 m = replies[o["lean_i"]]
                 model = m.get("grammar") if "grammar" in m else ("<raise>" if m.get("raise") else "<" + json.dumps(m)[:80] + ">")
                 impl = g if isinstance(g, str) else ("<raise>" if o["exc"] else "<no grammar returned>")
